@@ -39,3 +39,46 @@ V('c19-twin-local-copy', 'C19', 'hl7apy/factories.py', 'factories = base_datatyp
   'factories = dict(base_datatypes)', expect='clean')
 V('c19-twin-rename', 'C19', 'hl7apy/core.py', 'new_ref = [ref_item for ref_item in self.reference]',
   'new_ref = list(self.reference)', expect='clean')
+
+# ---------------------------------------------------------------- C17
+V('c17-parse-segment-drops-level', 'C17', 'hl7apy/parser.py',
+  "    segment = Segment(segment_name, version=version, validation_level=validation_level,\n                      reference=reference)",
+  "    segment = Segment(segment_name, version=version,\n                      reference=reference)", rule='C17-F')
+V('c17-create-element-drops-version', 'C17', 'hl7apy/core.py',
+  "                      'validation_level': self.element.validation_level,\n                      'version': self.element.version}",
+  "                      'validation_level': self.element.validation_level}", rule='C17-F')
+V('c17-parse-child-drops-level', 'C17', 'hl7apy/core.py',
+  "            kwargs['version'] = self.version\n            kwargs['validation_level'] = self.validation_level\n            module = importlib.import_module(\"hl7apy.parser\")\n            parser = getattr(module, self.child_parser[0])",
+  "            kwargs['version'] = self.version\n            module = importlib.import_module(\"hl7apy.parser\")\n            parser = getattr(module, self.child_parser[0])",
+  rule='C17-F')
+V('c17-subcomponent-value-drops-level', 'C17', 'hl7apy/core.py',
+  "                self._value = datatype_factory(self.datatype, value, self.version,\n                                               self.validation_level)",
+  "                self._value = datatype_factory(self.datatype, value, self.version)", rule='C17-F')
+V('c17-numeric-factory-drops-level', 'C17', 'hl7apy/factories.py',
+  "        return datatype_cls(Decimal(value), validation_level=validation_level)",
+  "        return datatype_cls(Decimal(value))", rule='C17-F')
+V('c17-wd-drops-level', 'C17', 'hl7apy/base_datatypes.py',
+  "        super(WD, self).__init__(value, 199, highlights, validation_level)",
+  "        super(WD, self).__init__(value, 199, highlights)", rule='C17-F')
+V('c17-parse-fields-drops-encoding-chars', 'C17', 'hl7apy/parser.py',
+  "                fields.append(parse_field(field, name, version, encoding_chars, validation_level,\n                                          reference))",
+  "                fields.append(parse_field(field, name, version, validation_level=validation_level,\n                                          reference=reference))",
+  rule='C17-F')
+V('c17-unconditional-default', 'C17', 'hl7apy/core.py',
+  "        if encoding_chars is None:\n            encoding_chars = get_default_encoding_chars(version)\n        # TODO",
+  "        encoding_chars = encoding_chars or dict(get_default_encoding_chars(version))\n        base = get_default_encoding_chars(version)\n        # TODO",
+  rule='C17-D')
+V('c17-raw-level-new-site', 'C17', 'hl7apy/core.py',
+  "        if name is None:\n            raise OperationNotAllowed(\"Cannot instantiate an unknown Segment\")",
+  "        if name is None or (Validator.is_strict(validation_level) and len(name) != 3):\n            raise OperationNotAllowed(\"Cannot instantiate an unknown Segment\")",
+  rule='C17-R')
+V('c17-twin-keyword', 'C17', 'hl7apy/parser.py',
+  "    segment.children = parse_fields(text, segment_name, version, encoding_chars, validation_level,\n                                    segment.structure_by_name, segment.allow_infinite_children)",
+  "    segment.children = parse_fields(text, segment_name, version=version, encoding_chars=encoding_chars,\n                                    validation_level=validation_level, references=segment.structure_by_name,\n                                    force_varies=segment.allow_infinite_children)",
+  expect='clean')
+V('c17-fix-factory-fallback', 'C17', 'hl7apy/factories.py', "        return factories['ST'](value)",
+  "        return factories['ST'](value, validation_level=validation_level)", expect='fixed:factories.datatype_factory')
+V('c17-fix-add-subcomponent', 'C17', 'hl7apy/core.py',
+  "        if self.is_unknown() and is_base_datatype(self.datatype):",
+  "        if self.is_unknown() and is_base_datatype(self.datatype, self.version):",
+  expect='fixed:core.Component.add_subcomponent')
